@@ -21,8 +21,9 @@ GEN_DIR = os.environ.get("C08_GEN_DIR") or os.path.join(core.LEAN, "FastorModel"
 ISAS = ["sse2", "avx2", "avx512"]
 
 REG_TYPES = {"__m128", "__m128d", "__m128i", "__m256", "__m256d", "__m256i", "__m512", "__m512d", "__m512i"}
-SCALAR_TYPES = {"int": "i32", "int32_t": "i32", "int64_t": "i64", "Int64": "i64", "long long": "i64", "float": "f32", "double": "f64"}
-LEAN_TY = {"R": "Reg", "i32": "BitVec 32", "f32": "BitVec 32", "i64": "BitVec 64", "f64": "BitVec 64", "C": "Reg × Reg", "P32": "Reg", "P64": "Reg"}
+SCALAR_TYPES = {"int": "i32", "int32_t": "i32", "int64_t": "i64", "Int64": "i64", "long long": "i64", "float": "f32", "double": "f64",
+                "uint64_t": "i64", "uint32_t": "i32", "int32_lane_t": "i32", "int64_lane_t": "i64"}
+LEAN_TY = {"bool": "Bool", "R": "Reg", "i32": "BitVec 32", "f32": "BitVec 32", "i64": "BitVec 64", "f64": "BitVec 64", "C": "Reg × Reg", "P32": "Reg", "P64": "Reg"}
 TNAME = {"int32_t": "int32", "int": "int32", "int64_t": "int64", "Int64": "int64", "float": "float", "double": "double",
          "std::complex<float>": "cfloat", "std::complex<double>": "cdouble"}
 def is_cplx(T): return T.startswith("std::complex")
@@ -126,6 +127,7 @@ class Parser:
     def __init__(self, toks, env, funcs, cls, ctypes=None):
         # cls: None or (T, abi) of the enclosing class
         self.t = toks; self.i = 0; self.env = env; self.funcs = funcs; self.cls = cls; self.ctypes = ctypes or {}
+        self.aliases = env.get("@aliases", {})
         self.cplx = bool(cls) and is_cplx(cls[0])
     def peek(self, k=0): return self.t[self.i + k] if self.i + k < len(self.t) else (None, None)
     def eat(self, v=None):
@@ -135,7 +137,16 @@ class Parser:
         self.i += 1; return tk
     def done(self): return self.i >= len(self.t)
 
-    def expr(self): return self.bor()
+    def expr(self):
+        a = self.bor()
+        if self.peek() in (("p", "<"), ("p", ">")):
+            op = self.eat()[1]; b = self.bor()
+            kinds = {a.kind, b.kind} - {"imm"}
+            if len(kinds) != 1 or kinds.copy().pop() not in ("i32", "i64"): raise Untranslatable("comparison of %s and %s" % (a.kind, b.kind))
+            k = kinds.pop(); a = self.coerce(a, k); b = self.coerce(b, k)
+            x, y = (a, b) if op == "<" else (b, a)
+            return Val("bool", "(BitVec.slt %s %s)" % (x.text, y.text), fo=a.fo or b.fo)
+        return a
     def _binc(self, sub, ops):
         a = sub()
         while self.peek()[1] in ops and self.peek()[0] == "p":
@@ -145,7 +156,7 @@ class Parser:
     def band(self): return self._binc(self.shift, ("&",))
     def shift(self): return self._binc(self.add, ("<<", ">>"))
     def add(self): return self._binc(self.mul, ("+", "-"))
-    def mul(self): return self._binc(self.unary, ("*",))
+    def mul(self): return self._binc(self.unary, ("*", "/"))
 
     def coerce(self, v, kind):
         """bring a literal to scalar kind"""
@@ -172,6 +183,7 @@ class Parser:
             return Val(a.kind, (a.text[0], a.text[1] + d * scale), ctype=a.ctype)
         if a.kind == "imm" and b.kind == "imm":
             x, y = a.const, b.const
+            if op == "/": raise Untranslatable("constant division")
             r = {"|": x | y, "&": x & y, "<<": x << y, ">>": x >> y, "+": x + y, "-": x - y, "*": x * y}[op]
             return Val("imm", str(r), r)
         if a.kind == "flit" and b.kind == "flit" and op in "+-*":
@@ -180,11 +192,12 @@ class Parser:
         kinds = {a.kind, b.kind} - {"imm", "flit"}
         if len(kinds) != 1: raise Untranslatable("operator %s on %s and %s" % (op, a.kind, b.kind))
         k = kinds.pop()
-        if k not in ("i32", "i64", "f32", "f64") or op not in "+-*": raise Untranslatable("operator %s on %s" % (op, k))
+        if k not in ("i32", "i64", "f32", "f64") or op not in "+-*/": raise Untranslatable("operator %s on %s" % (op, k))
         a = self.coerce(a, k); b = self.coerce(b, k)
         if k in ("i32", "i64"):
+            if op == "/": return Val(k, "(BitVec.sdiv %s %s)" % (a.text, b.text), fo=a.fo or b.fo)    # C++ signed division truncates towards zero
             return Val(k, "(%s %s %s)" % (a.text, op, b.text), fo=a.fo or b.fo)
-        fn = {"+": "add", "-": "sub", "*": "mul"}[op] + k[1:]
+        fn = {"+": "add", "-": "sub", "*": "mul", "/": "div"}[op] + k[1:]
         return Val(k, "(fo.%s %s %s)" % (fn, a.text, b.text), fo=True)
 
     def unary(self):
@@ -196,6 +209,10 @@ class Parser:
             raise Untranslatable("unary minus on %s" % v.kind)
         if tk == ("p", "+"):
             self.eat(); return self.unary()
+        if tk == ("p", "&"):
+            self.eat(); v = self.postfix()
+            if v.kind in ("R", "V") and re.match(r"^[A-Za-z_]\w*$", v.text): return Val("ADDR", v.text)
+            raise Untranslatable("address-of")
         if tk == ("p", "*"):
             self.eat()
             if self.peek() == ("id", "this"):
@@ -206,9 +223,19 @@ class Parser:
             j = self.i + 1
             while j < len(self.t) and self.t[j][0] == "id": j += 1
             if j > self.i + 1 and j + 1 < len(self.t) and self.t[j] == ("p", "*") and self.t[j + 1] == ("p", ")"):
+                tyname = " ".join(t[1] for t in self.t[self.i + 1:j] if t[1] != "const")
                 save = self.i; self.i = j + 2
                 v = self.unary()
-                if v.kind in ("P32", "P64"): return v
+                if v.kind in ("P32", "P64"):
+                    if v.kind == "PADDR" or v.ctype == "@addr":
+                        pass
+                    return v
+                if v.kind == "ADDR":
+                    # (T*)&reg : the lanes of a register seen as an array of T
+                    k, _ = parse_type(tyname + "*", self.cls) if tyname != "scalar_value_type" else (None, None)
+                    if tyname == "scalar_value_type" and self.cls: k = "P64" if self.cls[0] in ("double", "int64_t", "Int64") else "P32"
+                    if k in ("P32", "P64"): return Val(k, (v.text, 0), fo=v.fo, ctype=tyname)
+                    raise Untranslatable("cast of an address to %s*" % tyname)
                 self.i = save
             # cast?
             j = self.i + 1; names = []
@@ -293,6 +320,8 @@ class Parser:
             if v == "value" and self.cls and not self.cplx: return Val("R", "self", ctype=reg_ctype(*self.cls))
             if v == "value_r" and self.cplx: return Val("R", "self_r", ctype=reg_ctype(*self.cls))
             if v == "value_i" and self.cplx: return Val("R", "self_i", ctype=reg_ctype(*self.cls))
+            if v in self.aliases:
+                k, tgt, ct = self.aliases[v]; return Val(k, (tgt, 0), ctype=ct)
             if v in self.env:
                 k = self.env[v]
                 if k in ("P32", "P64"): return Val(k, (lname(v), 0), ctype=self.ctypes.get(v))
@@ -430,8 +459,8 @@ def parse_type(t, cls=None):
     t = re.sub(r"^const\s+", "", t).strip()
     if t in REG_TYPES: return "R", t
     if t in SCALAR_TYPES: return SCALAR_TYPES[t], None
-    mp = re.match(r"^(float|double|int32_t|int64_t|int)\s*\*\s*(?:__restrict__|__restrict)?$", t)
-    if mp: return ("P64" if mp.group(1) in ("double", "int64_t") else "P32"), mp.group(1)
+    mp = re.match(r"^(float|double|int32_t|int64_t|int|uint64_t|uint32_t|int32_lane_t|int64_lane_t)\s*\*\s*(?:__restrict__|__restrict)?$", t)
+    if mp: return ("P64" if mp.group(1) in ("double", "int64_t", "uint64_t", "int64_lane_t") else "P32"), mp.group(1)
     if cls is not None:
         if t == "vector_type": return ("C" if is_cplx(cls[0]) else "V"), cls
         if t == "value_type": return "R", reg_ctype(*cls)
@@ -468,8 +497,35 @@ def parse_params(ps, cls=None):
 
 OPNAMES = {"+": "add", "-": "sub", "*": "mul", "/": "div", "+=": "iadd", "-=": "isub", "*=": "imul", "/=": "idiv"}
 
+FOR_RE = re.compile(r"for\s*\(\s*(?:FASTOR_INDEX|int|size_t|int32_t|unsigned long|unsigned)\s+(\w+)\s*=\s*(\d+)(?:UL|ul|u|U)?\s*;\s*\1\s*<\s*(\d+)(?:UL|ul|u|U)?\s*;\s*(?:\+\+\s*\1|\1\s*\+\+)\s*\)")
+
+def unroll(body):
+    """constant-bound `for (I i = lo; i < hi; ++i) BODY`  ->  BODY[i:=lo]; ...; BODY[i:=hi-1]"""
+    for _ in range(20):
+        ms = list(FOR_RE.finditer(body))
+        if not ms: return body
+        m = ms[-1]
+        var, lo, hi = m.group(1), int(m.group(2)), int(m.group(3))
+        if hi - lo > 64: raise Untranslatable("loop with %d iterations" % (hi - lo))
+        rest = body[m.end():]
+        k = len(rest) - len(rest.lstrip())
+        if rest[k:k + 1] == "{":
+            e = match_brace(rest, k); inner = rest[k + 1:e - 1]; tail = rest[e:]
+        else:
+            e = rest.find(";", k)
+            if e < 0: raise Untranslatable("loop body")
+            inner = rest[k:e + 1]; tail = rest[e + 1:]
+        exp = "".join(re.sub(r"\b%s\b" % re.escape(var), str(i), inner) + ";" for i in range(lo, hi))
+        body = body[:m.start()] + exp + tail
+    raise Untranslatable("loop nesting")
+
+def lanes_of(info):
+    if not info or info[1] not in ("sse", "avx", "avx512") or info[0] not in TNAME: return None
+    w = 64 if info[0] in ("double", "int64_t", "Int64", "std::complex<double>") else 32
+    return {"sse": 128, "avx": 256, "avx512": 512}[info[1]] // w
+
 def split_statements(body):
-    if re.search(r"\b(for|while|if|else|switch|do|goto)\b", body):
+    if re.search(r"\b(for|while|else|switch|do|goto)\b", body):
         raise Untranslatable("control flow in the body")
     if re.search(r"\[[^\]]*[A-Za-z_][^\]]*\]", body): raise Untranslatable("array / pointer indexing with a non-constant index")
     return [s.strip() for s in body.split(";") if s.strip()]
@@ -554,8 +610,14 @@ def translate_function(f, funcs):
             if not m or f["body"].strip(): raise Untranslatable("constructor body")
             result[0] = ev(m.group(1), "R").text
     else:
-        stmts = split_statements(f["body"])
+        body = f["body"]
+        N = lanes_of(cls or owner)
+        if N: body = re.sub(r"\bout\.size\(\)|\bSize\b|\bsize\(\)", str(N), body)
+        body = unroll(body)
+        stmts = split_statements(body)
+        env["@aliases"] = {}
         for s in stmts:
+            if re.match(r"^unused\s*\(.*\)$", s): continue
             if result[0] is not None: raise Untranslatable("statement after return")
             m = re.match(r"^return\s+(.*)$", s, re.S)
             if m:
@@ -565,6 +627,46 @@ def translate_function(f, funcs):
                     result[0] = "(self_r, self_i)" if cplx_cls else "self"; continue
                 v = ev(e, ret_kind if ret_kind != "OUTS" else None)
                 result[0] = pairtext(v) if v.kind == "C" else v.text; continue
+            # local arrays  T a[n], b[n]
+            m = re.match(r"^(?:alignas\s*\(\d+\)\s+|__attribute__\s*\(\(aligned\(\d+\)\)\)\s+)?(\w+)\s+(\w+\s*\[\d+\](?:\s*,\s*\w+\s*\[\d+\])*)$", s)
+            if m and parse_type(m.group(1) + "*", cls)[0] in ("P32", "P64"):
+                k, info = parse_type(m.group(1) + "*", cls)
+                for d in m.group(2).split(","):
+                    nm = re.match(r"\s*(\w+)", d).group(1); env[nm] = k; ctypes[nm] = info; lets.append((lname(nm), "junk"))
+                continue
+            # pointer alias of a register  T *p = (T*)&reg
+            m = re.match(r"^(?:const\s+)?(\w+)\s*\*\s*(\w+)\s*=\s*(.*)$", s, re.S)
+            if m:
+                v = ev(m.group(3))
+                if v.kind in ("P32", "P64") and v.text[1] == 0:
+                    env["@aliases"][m.group(2)] = (v.kind, v.text[0], v.ctype); continue
+                raise Untranslatable("statement %r" % s[:70])
+            # conditional assignment  if (c) x = e
+            m = re.match(r"^if\s*\((.*?)\)\s*([A-Za-z_]\w*)\s*=\s*(.*)$", s, re.S)
+            if m and m.group(2) in env and env[m.group(2)] in ("i32", "i64", "f32", "f64"):
+                c = ev(m.group(1))
+                if c.kind != "bool": raise Untranslatable("condition %r" % m.group(1)[:40])
+                e = ev(m.group(3), env[m.group(2)])
+                lets.append((lname(m.group(2)), "(if %s then %s else %s)" % (c.text, e.text, lname(m.group(2))))); continue
+            if s.startswith("if"): raise Untranslatable("statement %r" % s[:70])
+            # array element (compound) assignment  a[k] op= e
+            m = re.match(r"^(\w+)\s*\[\s*(\d+)\s*\]\s*(=|\+=|-=|\*=|/=)\s*(.*)$", s, re.S)
+            if m and (m.group(1) in env and env[m.group(1)] in ("P32", "P64") or m.group(1) in env["@aliases"]):
+                cur = ev("%s[%s]" % (m.group(1), m.group(2)))
+                rhs = ev(m.group(4), cur.kind)
+                if m.group(3) != "=":
+                    rhs = Parser([], env, funcs, cls, ctypes).binop(m.group(3)[0], cur, rhs); fo[0] = fo[0] or rhs.fo
+                pv = ev(m.group(1)); tgt = pv.text[0]; k = int(m.group(2))
+                if pv.kind == "P32": lets.append((tgt, "(storew %s %d 1 (set1_32 %s))" % (tgt, k, rhs.text)))
+                else: lets.append((tgt, "(storew %s %d 2 (set1_64 %s))" % (tgt, 2 * k, rhs.text)))
+                if tgt == "self": selfmod[0] = True
+                continue
+            # scalar compound assignment  x op= e
+            m = re.match(r"^([A-Za-z_]\w*)\s*(\+=|-=|\*=|/=)\s*(.*)$", s, re.S)
+            if m and m.group(1) in env and env[m.group(1)] in ("i32", "i64", "f32", "f64"):
+                k = env[m.group(1)]; cur = Val(k, lname(m.group(1))); rhs = ev(m.group(3), k)
+                r = Parser([], env, funcs, cls, ctypes).binop(m.group(2)[0], cur, rhs); fo[0] = fo[0] or r.fo
+                lets.append((lname(m.group(1)), r.text)); continue
             # declarations with initialiser
             m = re.match(r"^(?:static\s+)?(?:const\s+)?(SIMDVector<[^=]*?>|[A-Za-z_][\w ]*?)\s+([A-Za-z_]\w*)\s*=\s*(.*)$", s, re.S)
             if m and parse_type(m.group(1), cls)[0]:
